@@ -55,6 +55,9 @@ func init() {
 		c18SliceHigh(s, e, aes, "pkcs5Unpadding", "unpadKeep")
 		c18Assign(s, e, aes, "pkcs5Padding", "padding", "padLen")
 		c18Cond(s, e, cry, "decryptBody", "if limitBytes > 0", "lengthExceeded")
+		c18Cond(s, e, cry, "decryptBody", "if r.ContentLength > 0", "declaredLength")
+		c18Cond(s, e, cry, "decryptBody", "if max <= 0", "noLimitConfigured")
+		c18Cond(s, e, cry, "LimitCryptionHandler", "if r.ContentLength == 0", "noBodyGate")
 		c18Cond(s, e, tokp, "TokenParser.ParseToken", "if count > prevCount", "currentFirst")
 		c18Cond(s, e, tokp, "TokenParser.incrementCount", "if tp.resetTime+tp.resetDuration < now", "historyExpired")
 
@@ -73,6 +76,14 @@ func init() {
 		e.shapeDef(s, sec, "computeBodySignature", "bodySignatureShape")
 		e.shapeDef(s, sec, "getPathQuery", "getPathQueryShape")
 		e.shapeDef(s, sec, "ContentSecurityHeader.Encrypted", "encryptedShape")
+		c18ReturnExprs(s, e, sec, "ContentSecurityHeader.Encrypted", "encryptedReturns")
+		c18ReturnExprs(s, e, sec, "computeBodySignature", "bodySignatureReturns")
+		c18ReturnExprs(s, e, sec, "getPathQuery", "getPathQueryReturns")
+		e.shapeDef(s, "core/iox/read.go", "DupReadCloser", "dupReadCloserShape")
+		c18ReturnExprs(s, e, "core/iox/read.go", "DupReadCloser", "dupReadCloserReturns")
+		e.shapeDef(s, "rest/httpx/requests.go", "ParseHeader", "parseHeaderShape")
+		e.constDef(s, "rest/httpx/requests.go", "separator", "headerSeparator")
+		e.constDef(s, "rest/httpx/requests.go", "tokensInAttribute", "tokensInAttribute")
 		e.shapeDef(s, cry, "LimitCryptionHandler", "cryptionShape")
 		e.shapeDef(s, cry, "decryptBody", "decryptBodyShape")
 		e.shapeDef(s, cry, "cryptionResponseWriter.flush", "flushShape")
@@ -278,6 +289,31 @@ func c18JoinArgs(s *source, e *emitter, rel, fn, lhs, lean string) {
 		items = []string{"MISSING"}
 	}
 	e.stringList(lean, "pieces joined into `"+lhs+"` by `"+fn+"` in "+rel, items)
+}
+
+// c18ReturnExprs: the source text of every return statement's results, in order ("a, b" per statement).
+func c18ReturnExprs(s *source, e *emitter, rel, fn, lean string) {
+	fd := s.findFunc(rel, fn)
+	if fd == nil {
+		e.errors = append(e.errors, "function "+fn+" not found in "+rel)
+		e.stringList(lean, "MISSING", []string{"MISSING"})
+		return
+	}
+	var items []string
+	ast.Inspect(fd.Body, func(n ast.Node) bool {
+		if _, ok := n.(*ast.FuncLit); ok {
+			return false
+		}
+		if r, ok := n.(*ast.ReturnStmt); ok {
+			var parts []string
+			for _, x := range r.Results {
+				parts = append(parts, s.src(x))
+			}
+			items = append(items, strings.Join(parts, ", "))
+		}
+		return true
+	})
+	e.stringList(lean, "results of the return statements of `"+fn+"` in "+rel, items)
 }
 
 // c18ShiftConst: `const name = a << b` (main.go's evaluator has no shifts).
